@@ -144,6 +144,37 @@ def index(root=None):
         return json.load(f)
 
 
+class _TD(dict):
+    """FV_TRACE_FNS=<file>: a dict that notes which functions' bodies a run looked up (coverage audit,
+    tools/fn_audit.py); never active in a registered check"""
+
+    def _note(self, k):
+        if k == "body" and dict.get(self, "k") == "Fn" and "_file" in self:
+            _TRACED.add("%s\t%s\t%s" % (dict.get(self, "_file"), fn_label(self), dict.get(self, "_test")))
+
+    def __getitem__(self, k):
+        self._note(k)
+        return dict.__getitem__(self, k)
+
+    def get(self, k, d=None):
+        self._note(k)
+        return dict.get(self, k, d)
+
+
+_TRACED = set()
+_TRACE_HOOK = None
+if os.environ.get("FV_TRACE_FNS"):
+    import atexit
+
+    _TRACE_HOOK = _TD
+
+    def _dump_trace():
+        with open(os.environ["FV_TRACE_FNS"], "a") as f:
+            f.write("".join(x + "\n" for x in sorted(_TRACED)))
+
+    atexit.register(_dump_trace)
+
+
 def load(path, root=None):
     """Return the parsed tree of one source file (path relative to the repo)."""
     root = root or REPO
@@ -159,7 +190,7 @@ def load(path, root=None):
         raise AnchorLost("file %s is missing or does not parse" % path)
     try:
         with open(p) as f:
-            d = json.load(f)
+            d = json.load(f, object_hook=_TRACE_HOOK)
     except (OSError, ValueError):
         p = os.path.join(_rebuild_cache(root), path.replace("/", "__") + ".json")
         with open(p) as f:
@@ -260,8 +291,8 @@ def _annotate(filed):
                 it["_file"] = filed["file"]
                 fns.append(it)
                 # nested fns (e.g. extern "sysv64" callbacks declared inside)
-                if it.get("body"):
-                    nested = [s for s in it["body"]["stmts"] if s.get("k") in ("Fn", "Impl", "Mod")]
+                if dict.get(it, "body"):
+                    nested = [s for s in dict.get(it, "body")["stmts"] if s.get("k") in ("Fn", "Impl", "Mod")]
                     if nested:
                         rec(nested, mods + ["{" + it["name"] + "}"], owner, t)
 
